@@ -16,10 +16,25 @@ import (
 )
 
 func VerifHarness_C13_Native() {
+	verifC13NativeMode(true)
+	verifC13NativeMode(false)
+}
+
+func verifC13NativeMode(deletion bool) {
 	depth, batch := 2, 1
-	ps, err := prover.SetupDeletion(uint32(depth), uint32(batch))
+	var ps *prover.ProvingSystem
+	var err error
+	if deletion {
+		ps, err = prover.SetupDeletion(uint32(depth), uint32(batch))
+	} else {
+		ps, err = prover.SetupInsertion(uint32(depth), uint32(batch))
+	}
 	verifAssert(err == nil, "setup")
-	h := verifDeploy(ps, DeletionMode)
+	mode := InsertionMode
+	if deletion {
+		mode = DeletionMode
+	}
+	h := verifDeploy(ps, mode)
 	type reqT struct {
 		body string
 		hash big.Int
@@ -27,25 +42,85 @@ func VerifHarness_C13_Native() {
 		code string
 	}
 	var reqs []reqT
+	add := func(v interface{}, hash big.Int, want int, code string) {
+		b, _ := json.Marshal(v)
+		reqs = append(reqs, reqT{body: string(b), hash: hash, want: want, code: code})
+	}
 	for i := 0; i < 4; i++ {
-		tree := poseidon_tree.NewTree(depth)
-		tree.Update(i, *big.NewInt(int64(100 + i)))
-		p := prover.DeletionParameters{DeletionIndices: []uint32{uint32(i)}, IdComms: []big.Int{*big.NewInt(int64(100 + i))}}
-		p.PreRoot = tree.Root()
-		p.MerkleProofs = [][]big.Int{tree.Update(i, *big.NewInt(0))}
-		p.PostRoot = tree.Root()
-		p.ComputeInputHashDeletion()
-		b, _ := json.Marshal(&p)
-		reqs = append(reqs, reqT{body: string(b), hash: p.InputHash, want: 200})
-		q := p
-		q.PostRoot = *big.NewInt(int64(7 + i))
-		b, _ = json.Marshal(&q)
-		reqs = append(reqs, reqT{body: string(b), want: 400, code: "proving_error"})
-		q = p
-		q.IdComms = append(q.IdComms, *big.NewInt(1))
-		b, _ = json.Marshal(&q)
-		reqs = append(reqs, reqT{body: string(b), want: 400, code: "proving_error"})
+		if deletion {
+			tree := poseidon_tree.NewTree(depth)
+			tree.Update(i, *big.NewInt(int64(100 + i)))
+			p := prover.DeletionParameters{DeletionIndices: []uint32{uint32(i)}, IdComms: []big.Int{*big.NewInt(int64(100 + i))}}
+			p.PreRoot = tree.Root()
+			p.MerkleProofs = [][]big.Int{tree.Update(i, *big.NewInt(0))}
+			p.PostRoot = tree.Root()
+			p.ComputeInputHashDeletion()
+			add(&p, p.InputHash, 200, "")
+			q := p
+			q.PostRoot = *big.NewInt(int64(7 + i))
+			add(&q, q.InputHash, 400, "proving_error")
+			q = p
+			q.IdComms = append(q.IdComms, *big.NewInt(1))
+			add(&q, q.InputHash, 400, "proving_error")
+			// relatives of the valid request: same roots and indices, another claimed hash / another leaf value (both unprovable)
+			q = p
+			q.InputHash = *new(big.Int).Add(&p.InputHash, big.NewInt(1))
+			add(&q, q.InputHash, 400, "proving_error")
+			q = p
+			q.IdComms = []big.Int{*big.NewInt(int64(900 + i))}
+			add(&q, q.InputHash, 400, "proving_error")
+		} else {
+			// two valid batches on the same pre-root (same start index, different commitment), and unprovable relatives of the first
+			for v := 0; v < 2; v++ {
+				tree := poseidon_tree.NewTree(depth)
+				for j := 0; j < i; j++ {
+					tree.Update(j, *big.NewInt(int64(50 + j)))
+				}
+				p := prover.InsertionParameters{StartIndex: uint32(i), IdComms: []big.Int{*big.NewInt(int64(100 + 10*i + v))}}
+				p.PreRoot = tree.Root()
+				p.MerkleProofs = [][]big.Int{tree.Update(i, p.IdComms[0])}
+				p.PostRoot = tree.Root()
+				p.ComputeInputHashInsertion()
+				add(&p, p.InputHash, 200, "")
+				if v == 0 {
+					q := p
+					q.InputHash = *new(big.Int).Add(&p.InputHash, big.NewInt(1))
+					add(&q, q.InputHash, 400, "proving_error")
+					q = p
+					q.IdComms = []big.Int{*big.NewInt(int64(900 + i))}
+					add(&q, q.InputHash, 400, "proving_error")
+					q = p
+					q.IdComms = append(q.IdComms, *big.NewInt(1))
+					add(&q, q.InputHash, 400, "proving_error")
+				}
+			}
+		}
 		reqs = append(reqs, reqT{body: fmt.Sprintf(`{"inputHash":"zz%d"}`, i), want: 400, code: "malformed_body"})
+	}
+	check := func(i int, rec *httptest.ResponseRecorder) string {
+		if rec.Code != reqs[i].want {
+			return fmt.Sprintf("request %d: status %d, alone it gets %d (%s)", i, rec.Code, reqs[i].want, rec.Body.String())
+		}
+		if reqs[i].want == 400 {
+			if verifCode(rec.Body.String()) != reqs[i].code {
+				return fmt.Sprintf("request %d: code %q, alone it gets %q", i, verifCode(rec.Body.String()), reqs[i].code)
+			}
+			return ""
+		}
+		var proof prover.Proof
+		if err := json.Unmarshal(rec.Body.Bytes(), &proof); err != nil {
+			return fmt.Sprintf("request %d: proof does not decode: %v", i, err)
+		}
+		var verr error
+		if deletion {
+			verr = ps.VerifyDeletion(reqs[i].hash, &proof)
+		} else {
+			verr = ps.VerifyInsertion(reqs[i].hash, &proof)
+		}
+		if verr != nil {
+			return fmt.Sprintf("request %d: proof does not verify for its own input hash: %v", i, verr)
+		}
+		return ""
 	}
 	for round := 0; round < 3; round++ {
 		var wg sync.WaitGroup
@@ -58,24 +133,7 @@ func VerifHarness_C13_Native() {
 				<-start
 				rec := httptest.NewRecorder()
 				h.ServeHTTP(rec, httptest.NewRequest(http.MethodPost, "/prove", strings.NewReader(reqs[i].body)))
-				if rec.Code != reqs[i].want {
-					errs[i] = fmt.Sprintf("request %d: status %d, alone it gets %d (%s)", i, rec.Code, reqs[i].want, rec.Body.String())
-					return
-				}
-				if reqs[i].want == 400 {
-					if verifCode(rec.Body.String()) != reqs[i].code {
-						errs[i] = fmt.Sprintf("request %d: code %q, alone it gets %q", i, verifCode(rec.Body.String()), reqs[i].code)
-					}
-					return
-				}
-				var proof prover.Proof
-				if err := json.Unmarshal(rec.Body.Bytes(), &proof); err != nil {
-					errs[i] = fmt.Sprintf("request %d: proof does not decode: %v", i, err)
-					return
-				}
-				if err := ps.VerifyDeletion(reqs[i].hash, &proof); err != nil {
-					errs[i] = fmt.Sprintf("request %d: proof does not verify for its own input hash: %v", i, err)
-				}
+				errs[i] = check(i, rec)
 			}(i)
 		}
 		close(start)
@@ -85,6 +143,16 @@ func VerifHarness_C13_Native() {
 			if e != "" {
 				fmt.Println(e)
 			}
+		}
+	}
+	// one after the other, on the server that has answered all of the above: an answer must not depend on what was asked before
+	for i := range reqs {
+		rec := httptest.NewRecorder()
+		h.ServeHTTP(rec, httptest.NewRequest(http.MethodPost, "/prove", strings.NewReader(reqs[i].body)))
+		e := check(i, rec)
+		verifAssert(e == "", "a request sent after other requests gets the response it gets alone")
+		if e != "" {
+			fmt.Println(e)
 		}
 	}
 }
